@@ -7,7 +7,7 @@ RULES = {
     'H1': tables.rule_H1,
     'H2': tables.rule_H2,
     'H3': tables.rule_H3,
-    'H6': tables.rule_H6,
+    'H6': tables.rule_H6, 'SFMT': tables.rule_SFMT,
     'F1': config.rule_F1, 'F2': config.rule_F2, 'F3': config.rule_F3, 'F4': config.rule_F4, 'F5': config.rule_F5,
     'G1': config.rule_G1, 'N4': config.rule_N4,
     'J1': state.rule_J1, 'MEMO': state.rule_MEMO, 'J2': state.rule_J2, 'M': state.rule_M, 'D1': state.rule_D1, 'D3': state.rule_D3,
@@ -17,9 +17,9 @@ RULES = {
     'A2': ownership.rule_A2, 'A5': ownership.rule_A5, 'A6': ownership.rule_A6, 'A7': ownership.rule_A7, 'A8': ownership.rule_A8,
     'L': contracts.rule_L, 'K': contracts.rule_K, 'E1': contracts.rule_E1, 'E2': contracts.rule_E2, 'E3': contracts.rule_E3,
     'E6': contracts.rule_E6, 'E7': contracts.rule_E7, 'D2': contracts.rule_D2, 'E9': contracts.rule_E9, 'E4': contracts.rule_E4,
-    'E10': contracts.rule_E10, 'E11': contracts.rule_E11, 'BYTEWIN': contracts.rule_BYTEWIN, 'SIB': contracts.rule_SIB, 'SGN0': contracts.rule_SGN0, 'IDEM': contracts.rule_IDEM, 'OPT': contracts.rule_OPT, 'OPTDEP': contracts.rule_OPTDEP, 'EQ1': contracts.rule_EQ1, 'ITER1': contracts.rule_ITER1,
+    'E10': contracts.rule_E10, 'E11': contracts.rule_E11, 'BYTEWIN': contracts.rule_BYTEWIN, 'SIB': contracts.rule_SIB, 'SGN0': contracts.rule_SGN0, 'IDEM': contracts.rule_IDEM, 'PAD': contracts.rule_PAD, 'OPT': contracts.rule_OPT, 'OPTDEP': contracts.rule_OPTDEP, 'EQ1': contracts.rule_EQ1, 'ITER1': contracts.rule_ITER1,
     'C': stream.rule_C, 'POSW': stream.rule_POSW, 'B1': stream.rule_B1, 'POST': stream.rule_POST, 'RB': stream.rule_RB, 'NOMOVE': stream.rule_NOMOVE, 'SELFOP': stream.rule_SELFOP,
-    'I': dims.rule_I, 'B3': dims.rule_B3, 'N2a': dims.rule_N2a, 'IDX': dims.rule_IDX, 'TY1': dims.rule_TY1, 'XDT': dims.rule_XDT, 'SCALE': dims.rule_SCALE,
+    'I': dims.rule_I, 'B3': dims.rule_B3, 'N2a': dims.rule_N2a, 'IDX': dims.rule_IDX, 'TY1': dims.rule_TY1, 'XDT': dims.rule_XDT, 'SCALE': dims.rule_SCALE, 'TRAIL': dims.rule_TRAIL,
     'B2': mutate.rule_B2, 'WB': mutate.rule_WB, 'N1': mutate.rule_N1, 'N2': mutate.rule_N2, 'N5': mutate.rule_N5, 'D5': mutate.rule_D5, 'RNG': mutate.rule_RNG, 'IDX1': mutate.rule_IDX1, 'SLN': mutate.rule_SLN,
     'E5': ingest.rule_E5, 'CHOKE': ingest.rule_CHOKE, 'LV': ingest.rule_LV, 'WIN': ingest.rule_WIN,
     'G2': mode.rule_G2, 'MIRROR': mode.rule_MIRROR, 'G3': mode.rule_G3, 'G5': mode.rule_G5, 'E8': mode.rule_E8,
@@ -55,7 +55,7 @@ def _p(pid, rules, decided, declined, explanation, level='other', floors=None, a
                       floors=floors or {}, assumptions=list(assumptions) + COMMON_ASSUMPTIONS, exhaustive=exhaustive)
 
 
-_p('C18', ['H1', 'H3', 'E10', 'H4', 'F2', 'MEMO', 'SGN0'],
+_p('C18', ['H1', 'H3', 'E10', 'H4', 'F2', 'MEMO', 'SGN0', 'SFMT'],
    decided=["every struct-style code and endianness prefix maps to the dtype struct defines (regex classes = "
             "replacement tables = size table = struct.calcsize; prefix branches exhaustive)",
             "native-endian aliases point at the le/be dtype in the matching sys.byteorder branch (both branches, "
@@ -70,7 +70,7 @@ _p('C18', ['H1', 'H3', 'E10', 'H4', 'F2', 'MEMO', 'SGN0'],
                "prefix; both sys.byteorder alias branches of __init__.py are read from the syntax tree.",
    floors={'H1': 60, 'H3': 120})
 
-_p('C17', ['H6', 'DELEG', 'L', 'A7', 'E5', 'OPT', 'J1', 'WIN'],
+_p('C17', ['H6', 'DELEG', 'L', 'A7', 'E5', 'OPT', 'J1', 'WIN', 'PAD'],
    decided=["tofile writes exactly tobytes(), for sizes that span the writer's chunk boundary: the chunk size folds to a "
             "positive multiple of 8, so only the final chunk can be zero-padded (the > 100 MiB case no test reaches); "
             "every write is chunk.tobytes()",
@@ -148,7 +148,7 @@ _p('C01', ['K', 'E6', 'J2', 'A10', 'A1', 'A11', 'SLN', 'IDX1'],
    explanation="Class-provenance typing of every return of the operator/slicing methods per concrete class; sibling guard "
                "comparison; call-graph reachability to field reads.")
 
-_p('C06', ['C', 'POSW', 'B1', 'POST', 'RB', 'NOMOVE', 'E7', 'D2', 'J1', 'J2', 'OPT', 'CHOKE', 'SCALE', 'STALE', 'A11', 'SELFOP'],
+_p('C06', ['C', 'POSW', 'B1', 'POST', 'RB', 'NOMOVE', 'E7', 'D2', 'J1', 'J2', 'OPT', 'CHOKE', 'SCALE', 'STALE', 'A11', 'SELFOP', 'F2'],
    decided=["0 <= pos <= len in its structural part: _pos is definitely assigned on every escaping stream object; every "
             "_pos write is 0, the length, a validated/restored/found position, pos+len after a validated pos, or a "
             "bounded/checked increment; every effect that can change a BitStream's length is covered by stream-level "
@@ -160,7 +160,10 @@ _p('C06', ['C', 'POSW', 'B1', 'POST', 'RB', 'NOMOVE', 'E7', 'D2', 'J1', 'J2', 'O
             "documented position after append/+=/prepend/clear/deletion/assignment/replace/insert/overwrite/find and "
             "for new stream objects (kind of the assigned value per method)",
             "pos never affects ==, hash or any non-stream result (content operations reach no _pos read)",
-            "operations that are not documented to move pos never run, on self, a stream-level function that assigns self._pos; a _pos assignment never lands on a local that may be the receiver itself; negative dtype lengths cannot move pos backwards"],
+            "operations that are not documented to move pos never run, on self, a stream-level function that assigns self._pos; a _pos assignment never lands on a local that may be the receiver itself; negative dtype lengths cannot move pos backwards",
+            "what a read consumes depends on the format, the content and pos only, in the part that can be seen statically: the memoised "
+            "parse results the readers use (token lists, dtype lists) are never changed in place, neither by the caller that receives "
+            "them nor by a function they are handed to"],
    declined=["that the value returned by a read is the interpretation of exactly the consumed bits; pos arithmetic for "
              "oversized lengths inside _read_dtype_list (run-time)"],
    explanation="Typestate and path rules over bitstream.py: classification of all _pos writes by the form of the assigned "
@@ -179,7 +182,7 @@ _p('C07', ['E1', 'E2', 'E3', 'E11', 'OPT', 'MEMO', 'BYTEWIN', 'SIB'],
    explanation="Sibling guard agreement over the search entry points; forward-or-validate dataflow of start/end; taint of "
                "the raw bytealigned parameter to the store-level search sinks.")
 
-_p('C08', ['J1', 'J2', 'L', 'A7', 'A8', 'A6', 'A3', 'A1', 'A11', 'ITER1', 'MEMO'],
+_p('C08', ['J1', 'J2', 'L', 'A7', 'A8', 'A6', 'A3', 'A1', 'A11', 'ITER1', 'MEMO', 'PAD'],
    decided=["the complete observable state is the bit content: per-object fields are closed (__slots__) and _filename, "
             "immutable, modified_length, _pos are read only by the code whose role needs them; content operations "
             "reach no read of _pos/_filename",
@@ -206,7 +209,7 @@ _p('C10', ['D2', 'E9', 'J1', 'OPTDEP', 'A1', 'INTEX'],
    explanation="Exception-translation and guard-dominance checks over the four setters, four getters, the decoders and the "
                "reader closures of DtypeDefinition.")
 
-_p('C13', ['HASH', 'J1', 'J2', 'D3', 'L', 'G3', 'EQ1', 'A7', 'A1'],
+_p('C13', ['HASH', 'J1', 'J2', 'D3', 'L', 'G3', 'EQ1', 'A7', 'A1', 'PAD'],
    decided=["BitArray and BitStream are unhashable, Bits and ConstBitStream hash (MRO resolution incl. Python's implicit "
             "__hash__ = None); ordering operators return NotImplemented",
             "== / != / hash have one implementation each for all classes and reach no read of _pos or _filename, so they "
@@ -231,7 +234,7 @@ _p('C16', ['A1', 'A3', 'A5', 'A8', 'A10', 'A11', 'E6', 'K', 'C', 'L', 'G3', 'POS
    explanation="Effect summaries per public operator, provenance of mutated temporaries, sibling guard agreement, "
                "result-class typing.")
 
-_p('C03', ['B2', 'WB', 'N1', 'B1', 'E2', 'E11', 'OPT', 'G5', 'A3', 'F2', 'RNG', 'IDX1', 'SIB', 'SELFOP', 'IDEM'],
+_p('C03', ['B2', 'WB', 'N1', 'B1', 'E2', 'E11', 'OPT', 'G5', 'A3', 'F2', 'RNG', 'IDX1', 'SIB', 'SELFOP', 'IDEM', 'SFMT'],
    decided=["an invalid position, range or value raises and leaves the content as it was: in every public mutator of "
             "BitArray/BitStream no explicit raise (directly, or in a loop through a raising callee) is reachable after the "
             "first change of self (operations over an iterable of positions exempt, by the property's wording)",
@@ -246,7 +249,7 @@ _p('C03', ['B2', 'WB', 'N1', 'B1', 'E2', 'E11', 'OPT', 'G5', 'A3', 'F2', 'RNG', 
                "for write loops from the validated window, dominating-guard facts for helper asserts.",
    floors={'B2': 40})
 
-_p('C14', ['I', 'IDX', 'TY1', 'XDT', 'B3', 'B2', 'N2a', 'A9', 'N4', 'MEMO', 'SGN0', 'DELEG'],
+_p('C14', ['I', 'IDX', 'TY1', 'XDT', 'B3', 'B2', 'N2a', 'A9', 'N4', 'MEMO', 'SGN0', 'DELEG', 'TRAIL'],
    decided=["item i occupies bits [i*w, (i+1)*w) with w in bits for every fixed-length dtype incl. byte-multiplier ones: "
             "bit counts (len of data, Dtype.bitlength, itemsize), unit counts (Dtype.length) and item counts are never "
             "mixed in array_.py (three-sorted dimension analysis of every arithmetic, comparison, slice bound, position)",
